@@ -75,9 +75,12 @@ MinOf(S) == CHOOSE x \in S : \A y \in S : y >= x
 BatchSeq == [k \in 1..Len(E.batch) |-> E.batch[k]]
 
 \* gap-free: every entry is at most one above everything handed over / synced before it
-GapFree(b, start) ==
-  \A k \in 1..Len(b) : b[k] >= 1 /\ b[k] <= N /\
-     b[k] <= MaxOf({start} \cup {b[j] : j \in 1..(k - 1)}) + 1
+RECURSIVE GapFreeFrom(_, _, _)
+GapFreeFrom(b, k, mx) ==
+  IF k > Len(b) THEN TRUE
+  ELSE /\ b[k] >= 1 /\ b[k] <= N /\ b[k] <= mx + 1
+       /\ GapFreeFrom(b, k + 1, IF b[k] > mx THEN b[k] ELSE mx)
+GapFree(b, start) == GapFreeFrom(b, 1, start)
 
 \* the batch is on its way: its effects may become visible from now on
 TSend ==
